@@ -2262,13 +2262,18 @@ fn usefulness(patterns: Vec<PatternStack>, q: PatternStack, defs: &Defs) -> Vec<
                             ),
                         ),
                         Ctor::Tuple(fields) => {
+                            // the first `fields.len()` patterns belong to the tuple, the
+                            // remaining ones to the enclosing constructors
+                            let rest = witness.split_off(fields.len().min(witness.len()));
                             witness = vec![Pattern::typed(
                                 PatternEnum::Tuple(witness),
                                 Type::Tuple(fields.clone()),
                                 meta,
-                            )]
+                            )];
+                            witness.extend(rest);
                         }
                         Ctor::Struct(struct_name, fields) => {
+                            let rest = witness.split_off(fields.len().min(witness.len()));
                             let witness_fields: Vec<_> = fields
                                 .iter()
                                 .zip(witness.into_iter())
@@ -2278,16 +2283,19 @@ fn usefulness(patterns: Vec<PatternStack>, q: PatternStack, defs: &Defs) -> Vec<
                                 PatternEnum::Struct(struct_name.clone(), witness_fields),
                                 Type::Struct(struct_name.clone()),
                                 meta,
-                            )]
+                            )];
+                            witness.extend(rest);
                         }
-                        Ctor::Variant(enum_name, variant_name, None) => {
-                            witness = vec![Pattern::typed(
+                        Ctor::Variant(enum_name, variant_name, None) => witness.insert(
+                            0,
+                            Pattern::typed(
                                 PatternEnum::EnumUnit(enum_name.clone(), variant_name.clone()),
                                 Type::Enum(enum_name.clone()),
                                 meta,
-                            )]
-                        }
-                        Ctor::Variant(enum_name, variant_name, Some(_)) => {
+                            ),
+                        ),
+                        Ctor::Variant(enum_name, variant_name, Some(fields)) => {
+                            let rest = witness.split_off(fields.len().min(witness.len()));
                             witness = vec![Pattern::typed(
                                 PatternEnum::EnumTuple(
                                     enum_name.clone(),
@@ -2296,7 +2304,8 @@ fn usefulness(patterns: Vec<PatternStack>, q: PatternStack, defs: &Defs) -> Vec<
                                 ),
                                 Type::Enum(enum_name.clone()),
                                 meta,
-                            )]
+                            )];
+                            witness.extend(rest);
                         }
                         Ctor::Array(elem_ty, size) => witness.insert(
                             0,
